@@ -413,7 +413,6 @@ pub fn configs(tier: Tier) -> Vec<TdCfg> {
 
 pub fn run(tier: Tier) -> i32 {
     let mut ck = Check::new("C07", tier, Duration::from_secs(if tier == Tier::Quick { 50 } else { 1500 }));
-    ck.level = "fault_enumeration";
     let ecfg = ExploreCfg { max_dev: 2, max_execs: if tier == Tier::Quick { 1_000_000 } else { 20_000_000 }, ..Default::default() };
     for (i, c) in configs(tier).iter().enumerate() {
         ck.explore::<Td>("teardown", i, c, &ecfg);
